@@ -25,3 +25,5 @@ for P in "$@"; do
   (cd /verif && VERIF_REPO="$W" ./check "$P" 2>&1 | tail -6 | cut -c1-400)
 done
 rm -f /tmp/seedtry-$$.log
+# the runs above regenerated lean/TakVerif/Generated from the CHANGED tree: put the committed files back
+(cd /verif && git checkout -- lean/TakVerif/Generated 2>/dev/null)
